@@ -348,6 +348,15 @@ func (e *Engine) callBuiltin(s *State, gi int, b *ssa.Builtin, args []Value) Val
 				o.m.keys, o.m.vals = nil, nil
 			}
 			return nil
+		case Slice:
+			if sig, ok := b.Type().(*types.Signature); ok && sig.Params().Len() == 1 {
+				if st, ok := sig.Params().At(0).Type().Underlying().(*types.Slice); ok {
+					for i := 0; i < x.ln; i++ {
+						e.store(s, Ptr{obj: x.obj, path: appendPath(x.path, x.off+i)}, e.zero(st.Elem()))
+					}
+					return nil
+				}
+			}
 		}
 	case "ssa:wrapnilchk":
 		p, ok := args[0].(Ptr)
